@@ -1,1 +1,320 @@
-/-! # C18 — property theorems (not built yet) -/
+import RsMatterVerif.Lemmas.BtpLink
+/-!
+# C18 — BTP delivers each message intact, once and in order, or fails cleanly
+
+Property theorems over `Model/Btp.lean` / `Model/BtpLink.lean`.
+-/
+namespace C18
+open Btp
+
+/-! ## Hostile peer: `process_rx` is total -/
+
+/-- **Hostile peer, clause "can not crash the node"**: for every session state satisfying the
+invariant, every GATT MTU, every byte string and every instant, `Session::process_rx` returns
+either a new state satisfying the invariant or a clean error (`Fail.isPanic = false`); on an error
+the state is unchanged (the model returns `Except`, the caller keeps the old state). -/
+theorem process_rx_total (s : Session) (hs : SInv s) (g : Option Nat) (data : List Nat)
+    (hd : Bytes data) (now : Nat) :
+    (∃ s', s.processRx g data now = .ok s' ∧ SInv s') ∨
+    (∃ e, s.processRx g data now = .error e ∧ e.isPanic = false) := by
+  have c := processRx_clean s hs g data hd now
+  cases h : s.processRx g data now with
+  | ok s' => rw [h] at c; exact .inl ⟨s', rfl, c⟩
+  | error e => rw [h] at c; exact .inr ⟨e, rfl, c⟩
+
+/-- the invariant holds initially (`Session::new` + `set_initiator` + `set_relaxed_mtu_nego`) -/
+theorem inv_init (initiator relaxed : Bool) : SInv (Session.fresh initiator relaxed) :=
+  sinv_fresh initiator relaxed
+
+/-- Non-vacuity: an established responder state satisfying the invariant exists (handshake request
+with MTU 23 and window 5 processed by a fresh responder). -/
+example : ∃ s, (Session.fresh false false).processRx none [0x65, 0x6c, 4, 0, 0, 0, 23, 0, 5] 0 = .ok s ∧
+    s.established = true ∧ s.windowSize = 5 ∧ s.mtu = 20 := by
+  exact ⟨_, rfl, rfl, rfl, rfl⟩
+
+/-! ## One end under every operation of the outside world -/
+
+/-- run a list of operations on a monitored end; a refused operation leaves the state unchanged -/
+def run (m : Mon) : List EOp → Mon
+  | [] => m
+  | op :: ops =>
+    match m.step op with
+    | .ok (m', _) => run m' ops
+    | .error _ => run m ops
+
+/-- the bytes on the wire are bytes -/
+def WfOps (ops : List EOp) : Prop := ∀ d now, EOp.rx d now ∈ ops → Bytes d
+
+def freshMon (initiator relaxed : Bool) (gatt : Option Nat) : Mon :=
+  { e := { s := Session.fresh initiator relaxed, gattMtu := gatt } }
+
+theorem minv_fresh (i r : Bool) (g : Option Nat) : MInv (freshMon i r g) := by
+  refine ⟨⟨sinv_fresh i r, by simp [freshMon], by simp [freshMon]⟩, ?_, ?_⟩
+  · simpa [freshMon, Session.fresh] using ringRep_init
+  · intro i b c h; simp [freshMon] at h
+
+/-- **Invariant**: preserved by every operation — application, GATT glue, and a peer that sends
+arbitrary bytes — in every order, for every negotiated MTU and window, including sequence wrap. -/
+theorem end_inv (ops : List EOp) : ∀ (m : Mon), MInv m → WfOps ops → MInv (run m ops) := by
+  induction ops with
+  | nil => intro m hm _; exact hm
+  | cons op ops ih =>
+    intro m hm hw
+    have hw' : WfOps ops := fun d now h => hw d now (List.mem_cons_of_mem _ h)
+    have c := mon_step m hm op (fun d now h => hw d now (by rw [h]; exact List.mem_cons_self))
+    simp only [run]
+    cases h : m.step op with
+    | ok r => rw [h] at c; exact ih r.1 c hw'
+    | error f => exact ih m hm hw'
+
+/-- **No operation ever panics**, whatever happened before: after any history of operations from a
+fresh end, the next operation yields a state satisfying the invariant or a clean error. -/
+theorem end_never_panics (i r : Bool) (g : Option Nat) (ops : List EOp) (hw : WfOps ops) (op : EOp)
+    (hop : ∀ d now, op = .rx d now → Bytes d) :
+    (∃ m' out, (run (freshMon i r g) ops).step op = .ok (m', out) ∧ MInv m') ∨
+    (∃ e, (run (freshMon i r g) ops).step op = .error e ∧ e.isPanic = false) := by
+  have hm := end_inv ops _ (minv_fresh i r g) hw
+  have c := mon_step _ hm op hop
+  cases h : (run (freshMon i r g) ops).step op with
+  | ok r => rw [h] at c; exact .inl ⟨r.1, r.2, rfl, c⟩
+  | error e => rw [h] at c; exact .inr ⟨e, rfl, c⟩
+
+/-- **Nothing corrupted, duplicated or reordered, whoever the peer is**: after any history of
+operations, the `i`-th message handed to the application is the `i`-th message of the
+specification-side reassembly (`Spec.Reasm`) of the segments that were accepted in the current
+session, cut to the caller's buffer. -/
+theorem delivered_is_reassembly (i r : Bool) (g : Option Nat) (ops : List EOp) (hw : WfOps ops)
+    (k : Nat) (b : List Nat) (c : Nat)
+    (hk : (run (freshMon i r g) ops).fetched[k]? = some (b, c)) :
+    ∃ full, (run (freshMon i r g) ops).rs.done[k]? = some full ∧ b = full.take c :=
+  (end_inv ops _ (minv_fresh i r g) hw).dlv k b c hk
+
+/-! ## Hostile peer: protocol violations are refused -/
+
+/-- **Hostile peer, clause "refused with an error"**: a data segment that violates the protocol in
+one of the ways named by the property — wrong sequence number, window overrun, acknowledgement of
+something that is not awaiting one, inconsistent length or flags (`Spec.mustReject`, evaluated on
+the protocol-level view `viewOf s` of the state) — is refused with `InvalidData`; the state is
+unchanged (`Except`), so by `delivered_is_reassembly` it can never reach the application. -/
+theorem hostile_segment_refused (s : Session) (hs : SInv s) (h : Hdr) (hh : h.Wf) (hhs : h.hs = false)
+    (p : List Nat) (now : Nat) (hm : Spec.mustReject (viewOf s) h p = true) :
+    s.processRxData h p now = .error .invalidData :=
+  mustReject_refused s hs h hh hhs p now hm
+
+/-- Non-vacuity: on an established session (window 5, nothing sent yet) a stand-alone
+acknowledgement of the never-sent sequence number 77 is a violation, and so is a data segment with
+sequence number 5 when 0 is expected. -/
+example : ∃ s, (Session.fresh false false).processRx none [0x65, 0x6c, 4, 0, 0, 0, 23, 0, 5] 0 = .ok s ∧
+    Spec.mustReject (viewOf s) { ack := true, ackNum := 77, seqNum := 0 } [] = true ∧
+    Spec.mustReject (viewOf s) { beg := true, fin := true, msgLen := 1, seqNum := 5 } [7] = true := by
+  exact ⟨_, rfl, by decide, by decide⟩
+
+/-! ## Window slots and the acknowledgement deadline (session level) -/
+
+/-- **Never more unacknowledged segments than the window (sender side)**: a segment is emitted only
+while the send window has a free slot and takes exactly one; together with `SInv.sendLe`
+(`level ≤ window`) and `SendWindow.checkIncoming` (only acknowledgements of segments that are
+awaiting one re-open slots) the number `window − level` of unacknowledged segments never exceeds
+the negotiated window. -/
+theorem emits_only_with_free_slot {s : Session} {data : List Nat} {off now : Nat} {s' : Session}
+    {seg : List Nat} {off' : Nat} (hok : s.prepTxData data off now = .ok (s', seg, off'))
+    (hseg : seg ≠ []) :
+    1 ≤ s.send.level ∧ s'.send.level + 1 = s.send.level ∧ s'.send.windowSize = s.send.windowSize := by
+  obtain ⟨h1, h2, _, h4, _⟩ := prepTxData_emits hok hseg
+  exact ⟨h1, h2, h4⟩
+
+/-- **Acknowledgement before the deadline**: every accepted data segment stamps the receive window
+with the current instant and leaves an acknowledgement pending ... -/
+theorem accepted_segment_is_stamped {s : Session} {h : Hdr} {p : List Nat} {now : Nat} {s' : Session}
+    (hok : s.processRxData h p now = .ok s') :
+    s'.recv.receivedAt = some now ∧ s'.recv.ackLevel = s.recv.ackLevel + 1 ∧ s'.recv.ackSeq = h.seqNum :=
+  accepted_stamps hok
+
+/-- ... `is_ack_due` answers yes no later than `received_at + ack timeout` whenever an
+acknowledgement is pending (i.e. something is unacknowledged and no complete message waits to be
+fetched) ... -/
+theorem ack_due_at_deadline (s : Session) (t now : Nat) (hp : s.recv.pendingAck.isSome = true)
+    (ht : s.recv.receivedAt = some t) (hd : t + ackTimeoutSecs ≤ now) :
+    s.isAckDue now ackTimeoutSecs = true :=
+  isAckDue_at_deadline s t now hp ht hd
+
+/-- ... and the pump then emits a segment carrying exactly that acknowledgement, provided the send
+window has a free slot (when it has none, the peer owes us an acknowledgement first). -/
+theorem due_ack_is_emitted (e : End) (he : EInv e) (now : Nat)
+    (hdue : e.s.isAckDue now ackTimeoutSecs = true) (hl : 1 ≤ e.s.send.level) :
+    ∃ e' seg, e.ackStep now = .ok (e', seg) ∧ seg ≠ [] ∧ e'.s.recv.ackLevel = 0 ∧
+      (decodeHdr seg).toOption.map (fun hp => hp.1.getAck) = some (some e.s.recv.ackSeq) :=
+  ack_emitted e he now hdue hl
+
+/-! ## Two ends joined by two FIFO queues -/
+
+/-- run a schedule on the monitored link; an operation that fails leaves the link unchanged
+(in particular a refused segment stays at the head of its queue — the GATT glue would tear the
+connection down) -/
+def runLink (l : LMon) : List Op → LMon
+  | [] => l
+  | op :: ops =>
+    match l.step op with
+    | .ok (l', _) => runLink l' ops
+    | .error _ => runLink l ops
+
+def WfSched (ops : List Op) : Prop := ∀ op ∈ ops, WfOp op
+
+/-- two fresh ends: `a` the initiator (GATT central), `b` the responder (peripheral) -/
+def freshLink (relaxedA relaxedB : Bool) (gattA gattB : Option Nat) : LMon :=
+  { a := freshMon true relaxedA gattA, b := freshMon false relaxedB gattB }
+
+theorem linv_fresh (ra rb : Bool) (ga gb : Option Nat) : LInv (freshLink ra rb ga gb) := by
+  refine ⟨minv_fresh _ _ _, minv_fresh _ _ _, ⟨by simp [freshLink, freshMon, Session.fresh], bytes_nil⟩,
+    ⟨by simp [freshLink, freshMon, Session.fresh], bytes_nil⟩, ?_, ?_⟩ <;>
+  · intro seg h; simp [freshLink] at h
+
+/-- **`link_inv`**: the invariant (window accounting `level + ack_level = window`,
+`send level ≤ window`, counters within their 8/16-bit ranges, ring buffer = queue of reassembled
+messages, everything on the wire a byte string) is preserved by every scheduler operation
+`Send | Poll | Deliver | Tick | Fetch` at either end, in every order — for every negotiated MTU
+and window and across sequence-number wrap (the sequence numbers are only constrained `< 256`). -/
+theorem link_inv (ops : List Op) : ∀ (l : LMon), LInv l → WfSched ops → LInv (runLink l ops) := by
+  induction ops with
+  | nil => intro l hl _; exact hl
+  | cons op ops ih =>
+    intro l hl hw
+    have hw' : WfSched ops := fun o h => hw o (List.mem_cons_of_mem _ h)
+    have c := link_step l hl op (hw op List.mem_cons_self)
+    simp only [runLink]
+    cases h : l.step op with
+    | ok r => rw [h] at c; exact ih r.1 c hw'
+    | error f => exact ih l hl hw'
+
+/-- **Between two ends no scheduler operation ever panics**, whatever the schedule so far; and the
+monitored step is the model's `Link.step` (`step_erase`). -/
+theorem link_never_panics (ra rb : Bool) (ga gb : Option Nat) (ops : List Op) (hw : WfSched ops)
+    (op : Op) (hop : WfOp op) :
+    (∃ l' out, (runLink (freshLink ra rb ga gb) ops).erase.step op = .ok (l', out)) ∨
+    (∃ e, (runLink (freshLink ra rb ga gb) ops).erase.step op = .error e ∧ e.isPanic = false) := by
+  have hl := link_inv ops _ (linv_fresh ra rb ga gb) hw
+  have c := link_step _ hl op hop
+  rw [← step_erase]
+  cases h : (runLink (freshLink ra rb ga gb) ops).step op with
+  | ok r => exact .inl ⟨r.1.erase, r.2, rfl⟩
+  | error e => rw [h] at c; exact .inr ⟨e, rfl, c⟩
+
+/-- **Receiving side of "intact, once, in order"** on the link: at either end, after any schedule,
+the `k`-th fetched message is the `k`-th message of the specification-side reassembly of the
+segments that end accepted. -/
+theorem link_delivered_is_reassembly (ra rb : Bool) (ga gb : Option Nat) (ops : List Op) (hw : WfSched ops)
+    (x : Side) (k : Nat) (b : List Nat) (c : Nat)
+    (hk : ((runLink (freshLink ra rb ga gb) ops).get x).fetched[k]? = some (b, c)) :
+    ∃ full, ((runLink (freshLink ra rb ga gb) ops).get x).rs.done[k]? = some full ∧ b = full.take c :=
+  ((link_inv ops _ (linv_fresh ra rb ga gb) hw).get x).1.dlv k b c hk
+
+/-! ## Intact, exactly once, in order -/
+
+theorem steady_run (ops : List Op) : ∀ (l : LMon), LInv l → Steady l → WfSched ops →
+    LInv (runLink l ops) ∧ Steady (runLink l ops) := by
+  induction ops with
+  | nil => intro l hl hs _; exact ⟨hl, hs⟩
+  | cons op ops ih =>
+    intro l hl hs hw
+    have hw' : WfSched ops := fun o h => hw o (List.mem_cons_of_mem _ h)
+    have c := link_step l hl op (hw op List.mem_cons_self)
+    simp only [runLink]
+    cases h : l.step op with
+    | ok r =>
+      rw [h] at c
+      exact ih r.1 c (steady_step hl hs (l' := r.1) (o := r.2) h) hw'
+    | error f => exact ih l hl hs hw'
+
+/-- in a steady state, what an end has fetched is what the other end submitted -/
+theorem fetched_is_submitted {l : LMon} (hl : LInv l) (hs : Steady l) (y : Side) (k : Nat) (b : List Nat)
+    (c : Nat) (hk : (l.get y).fetched[k]? = some (b, c)) :
+    ∃ full, (l.get y.other).submitted[k]? = some full ∧ b = full.take c := by
+  obtain ⟨full, hfull, hb⟩ := (hl.get y).1.dlv k b c hk
+  refine ⟨full, ?_, hb⟩
+  have d := hs y.other
+  have hq := d.q
+  simp only [other_other] at hq
+  obtain ⟨l1, hl1⟩ := feedAll_done (l.inq y) (l.get y).rs
+  rw [hq] at hl1
+  have hklt : k < (l.get y).rs.done.length := (List.getElem?_eq_some_iff.mp hfull).1
+  have htx : (l.get y.other).tx.done[k]? = some full := by
+    rw [hl1, List.getElem?_append_left hklt]; exact hfull
+  have hklt2 : k < (l.get y.other).tx.done.length := (List.getElem?_eq_some_iff.mp htx).1
+  rw [← d.tx.done, List.getElem?_append_left hklt2]
+  exact htx
+
+/-- **`in_order_once`** (for the class of schedules stated here, see `C18_full` below): start from
+any state of the link in which both handshakes are done and only data / acknowledgement segments
+travel (`Steady`: e.g. the state right after the handshake, `steady_after_handshake`), and run ANY
+schedule of `Send | Poll | Deliver | Tick | Fetch` operations at both ends — any interleaving, any
+message lengths `1..1232`, any negotiated MTU and window, across sequence-number wrap, with
+slow applications and withheld acknowledgements. Then at either end the `k`-th fetched message is
+byte-identical to the `k`-th message submitted at the other end (cut to the caller's buffer): no
+message is corrupted, duplicated, reordered, or invented.
+
+In this model a refused `Deliver` leaves the link unchanged (the refused segment is never skipped;
+the GATT glue closes the connection on an error); that no `Deliver` *is* refused between two
+well-behaved ends is the part of `C18_full` that is not proved here (it is what the link stream of
+the harness checks on the real code). -/
+theorem in_order_once (l0 : LMon) (hl : LInv l0) (hs : Steady l0) (ops : List Op) (hw : WfSched ops)
+    (y : Side) (k : Nat) (b : List Nat) (c : Nat)
+    (hk : ((runLink l0 ops).get y).fetched[k]? = some (b, c)) :
+    ∃ full, ((runLink l0 ops).get y.other).submitted[k]? = some full ∧ b = full.take c := by
+  obtain ⟨hl', hs'⟩ := steady_run ops l0 hl hs hw
+  exact fetched_is_submitted hl' hs' y k b c hk
+
+/-- the handshake between two fresh ends (GATT MTU unknown at both) -/
+def handshakeOps : List Op := [.poll .a, .deliver .b, .poll .b, .deliver .a]
+
+/-- Non-vacuity of `Steady` / `in_order_once`: the state reached by the handshake from two fresh
+ends is steady (segment size 20, window 79 negotiated, both queues empty). -/
+theorem steady_after_handshake :
+    LInv (runLink (freshLink false false none none) handshakeOps) ∧
+    Steady (runLink (freshLink false false none none) handshakeOps) ∧
+    ((runLink (freshLink false false none none) handshakeOps).a.e.s.established = true ∧
+     (runLink (freshLink false false none none) handshakeOps).b.e.s.windowSize = 79 ∧
+     (runLink (freshLink false false none none) handshakeOps).b.e.s.mtu = 20) := by
+  refine ⟨link_inv _ _ (linv_fresh _ _ _ _) (fun op h => ?_), ?_, ?_⟩
+  · simp [handshakeOps] at h
+    rcases h with rfl | rfl | rfl | rfl <;> trivial
+  · intro x
+    cases x
+    · refine ⟨by decide, ⟨by decide, by decide, by decide, ?_, ?_⟩, ?_, by decide⟩
+      · intro h; exact absurd (by decide) h
+      · intro _; decide
+      · have hq : (runLink (freshLink false false none none) handshakeOps).inq Side.a.other = [] := by decide
+        intro seg h; rw [hq] at h; exact absurd h List.not_mem_nil
+    · refine ⟨by decide, ⟨by decide, by decide, by decide, ?_, ?_⟩, ?_, by decide⟩
+      · intro h; exact absurd (by decide) h
+      · intro _; decide
+      · have hq : (runLink (freshLink false false none none) handshakeOps).inq Side.b.other = [] := by decide
+        intro seg h; rw [hq] at h; exact absurd h List.not_mem_nil
+  · decide
+
+/-- Non-vacuity of the conclusion: after the handshake, `a` submits `[1, 2, 3]`, the segment
+travels, `b` fetches exactly `[1, 2, 3]`. -/
+example : ((runLink (freshLink false false none none)
+    (handshakeOps ++ [.send .a [1, 2, 3], .poll .a, .deliver .b, .fetch .b 2048])).b.fetched) =
+    [([1, 2, 3], 2048)] := by decide
+
+/-! ## What is not proved -/
+
+/-- The full statement of the property on the model: from two fresh ends, under every schedule,
+(1) no operation fails (in particular no `Deliver` is refused), (2) what is fetched at one end is
+a prefix of what was submitted at the other end, (3) an end never has more segments in flight than
+the window. Proved: (2) from every steady state (`in_order_once`), the sender-side form of (3)
+(`emits_only_with_free_slot`), and "never panics" + invariants for every schedule (`link_inv`,
+`link_never_panics`). Not proved: (1), i.e. that sequence numbers, acknowledgements and window
+levels of two well-behaved ends always match (it needs the in-flight accounting
+`level + ack_level + in flight = window` across both queues); the harness checks it on the real
+code (kind `l`: any error between two well-behaved ends is an oracle failure). -/
+def C18_full : Prop :=
+  ∀ (ra rb : Bool) (ga gb : Option Nat) (ops : List Op), WfSched ops →
+    (∀ op, WfOp op → ∀ e, (runLink (freshLink ra rb ga gb) ops).step op ≠ .error e ∨
+        e = .invalidArgument) ∧
+    (∀ (y : Side) (k : Nat) (b : List Nat) (c : Nat),
+        ((runLink (freshLink ra rb ga gb) ops).get y).fetched[k]? = some (b, c) →
+        ∃ full, ((runLink (freshLink ra rb ga gb) ops).get y.other).submitted[k]? = some full ∧
+          b = full.take c)
+
+end C18
